@@ -1,6 +1,7 @@
 """C12 - BehaviorSubject hands every new subscriber the current value first (sequential histories)."""
 import itertools
 from common import *
+import ileave
 
 OPS = ["sub", "(unsub 0)", "(unsub 1)", "(next 1)", "(next 2)", "(next_by (add 1))", "(next_by (mul 2))",
        "(next_sub_inside 3 0)", "clone", "peek", "complete", "(error 7)", "unsub_subject", "is_closed", "(sub_closed 0)"]
@@ -37,12 +38,12 @@ def run(tier, seed, replay=None):
     proof_stage(rep, "C12")
     if not build_stage(rep):
         return rep.finish()
-    cases = load_replay_case(replay) if replay else make_cases(tier, rng)
+    cases = load_replay_case(replay) if replay else make_cases(tier, rng) + ileave.cases("behavior", tier, rng, "ib", judge="c12")
     correspond(rep, "C12", cases, "C12_behavior_refines")
     c = rep.coverage
     hist = {}
     for _, _, t in cases:
-        key = "%s/%s" % (t.get("variant"), t.get("class"))
+        key = "%s/%s" % (t.get("variant"), t.get("class")) if "variant" in t else "interleavings/%d threads" % t.get("threads", 0)
         hist[key] = hist.get(key, 0) + 1
     c["generator_distribution"] = hist
     c["exhaustive"] = True
@@ -50,7 +51,7 @@ def run(tier, seed, replay=None):
                  "subscription made inside a callback, clone, peek, complete, error, unsubscribe-subject, is_closed, subscriber.is_closed), "
                  "each followed by a fixed observation tail (peek, a late subscriber, an emission), on BehaviorSubject over Subject and "
                  "over SubjectThreads; random histories of 6-13 operations; observation = all deliveries in order, peek values, API answers"
-                 % (4 if tier == "quick" else 5))
-    rep.assumptions = ["sequential histories only: the statement about two concurrent producers over the thread-safe subject is not decided by this check",
+                 % (4 if tier == "quick" else 5)) + "; and " + ileave.RULE
+    rep.assumptions = ["concurrent producers over the thread-safe subject: schedules with a bounded number of context switches (and random ones) of two producers / a producer and a late subscriber; the clause fails on the crate as it is (KNOWN FINDING C12-behavior-race)",
                        "len()/is_empty() while open are compared with the model only"]
     return rep.finish()
